@@ -366,10 +366,9 @@ def inflate (s o : MH) : Except Err MH :=
   if !s.trackAbundance ∧ o.trackAbundance then do
     let abunds := s.mins.map (fun h => (h, (o.pairs.lookup h).getD 0))
     let am ← copyAndClear o
-    -- `abund_mh.downsample(scaled=self.scaled)` result is discarded by the code;
-    -- it can still raise
-    let _ ← downsample am none (some (scaledProp s))
-    setAbundances am abunds true
+    -- `abund_mh = abund_mh.downsample(scaled=self.scaled)` (the result used to be discarded: C04.1)
+    let am' ← downsample am none (some (scaledProp s))
+    setAbundances am' abunds true
   else .error .pyValue
 
 end Py
